@@ -13,7 +13,7 @@ PROP = {
              # matching impl would make the call ambiguous); direct oracle
              {"tag": "c11nested", "bin": "c11p", "no_default_features": True, "args": ["--nested"], "model": False}],
     "mismatch_is_failing": True,
-    "rule": "flatten for every (N, M) in 0..=6 x 0..=6 plus (1,1024), (1024,1), (16,64); unflatten for every (NM, N) with 0 < N <= 36, N | NM, NM <= 36 plus (1024,1), (1024,16), (1024,64), (1024,1024); each in the owned, & and &mut form, for u32, drop-tracked Tr, zero-sized Tz and a one-byte element with a destructor (Tb). OBS: regrouped ids in order, byte offset of the regrouped reference relative to the source, its total byte extent and length(s); for &mut a write through the regrouped view at flat index first/last/random (thorough: every index when the length is <= 36) and the source read back through its own type; run c11p: the & / &mut forms once more through a separately compiled generic caller (method syntax, only the traits' bounds) on 40 length pairs; direct oracles for leaf-by-leaf address identity, equal byte extent and drop accounting. distinct = distinct CASE lines; non-trivial = both lengths > 0",
+    "rule": "flatten for every (N, M) in 0..=6 x 0..=6 plus (1,1024), (1024,1), (16,64); unflatten for every (NM, N) with 0 < N <= 36, N | NM, NM <= 36 plus (1024,1), (1024,16), (1024,64), (1024,1024); each in the owned, & and &mut form, for u32, drop-tracked Tr, zero-sized Tz, a one-byte element with a destructor (Tb) and a 12-byte plain element (Tri). OBS: regrouped ids in order, byte offset of the regrouped reference relative to the source, its total byte extent and length(s); for &mut a write through the regrouped view at flat index first/last/random (thorough: every index when the length is <= 36) and the source read back through its own type; run c11p: the & / &mut forms once more through a separately compiled generic caller (method syntax, only the traits' bounds) on 40 length pairs; direct oracles for leaf-by-leaf address identity, equal byte extent and drop accounting. distinct = distinct CASE lines; non-trivial = both lengths > 0",
     "nontrivial": lambda case, obs: case.split()[3] != "0" and case.split()[4] != "0",
     "manifest": {
         "design_ref": "DESIGN.md section 7, C11",
